@@ -81,6 +81,8 @@ func (s *walletSessionManager) createSession(userID string, keyManager kms.KeyMa
 	}
 
 	for {
+		verifYield()
+
 		token, err := s.generateToken()
 		if err != nil {
 			return "", err
